@@ -388,6 +388,9 @@ func fillNote(f string) string {
 	if f == "warm" {
 		return " [variant: read-only queries interleaved after every operation]"
 	}
+	if strings.HasPrefix(f, "churn-") {
+		return " [variant: after the history the first and the last stored free key are deleted and re-inserted " + strings.TrimPrefix(f, "churn-") + " times each]"
+	}
 	return " [pre-state dead bytes overwritten with " + f + "]"
 }
 
